@@ -857,13 +857,31 @@ class FakeNetlinkSocket:
 
     def send(self, data):
         self.node.syscall('nl_send')
+        fault = getattr(self.kernel, 'nl_fault', {}).pop(self.kernel.req_no + 1, None)
+        if fault == 'send':
+            # the request never reaches the kernel: send() fails (ENOBUFS: socket buffers exhausted)
+            self.kernel.req_no += 1
+            self.node.world.count_fault('sys.nl_send')
+            self.node.world.record(('nlfail', self.node.name, 'send'))
+            self.kernel.nl_faults_fired = getattr(self.kernel, 'nl_faults_fired', 0) + 1
+            raise OSError(105, 'No buffer space available')
         reply = self.kernel.request(data, self.portid)
+        if fault == 'recv':
+            # the kernel did what was asked, its acknowledgement is lost: recv() fails
+            self.node.world.count_fault('sys.nl_recv_ack')
+            self.node.world.record(('nlfail', self.node.name, 'recv'))
+            self.kernel.nl_faults_fired = getattr(self.kernel, 'nl_faults_fired', 0) + 1
+            self.lost_ack = True
+            return len(data)
         if reply is not None:
             self.queue.append(reply)
         return len(data)
 
     def recv(self, n):
         self.node.syscall('nl_recv')
+        if getattr(self, 'lost_ack', False):
+            self.lost_ack = False
+            raise OSError(105, 'No buffer space available')
         if not self.queue:
             # a real daemon would block forever here
             self.node.blocked_forever('netlink recv() with no reply pending')
